@@ -1,5 +1,6 @@
-// Package vatomic replaces sync/atomic in the coop build (sequentially consistent, each operation a
-// scheduling point).
+// Package vatomic replaces sync/atomic in the coop build: sequentially consistent; each operation is a
+// scheduling point, synchronises like the real one (a load acquires what the observed store released)
+// and enters what it observed into the history of the vthread (see vsched.AtomicRead).
 package vatomic
 
 import "verif/vsched"
@@ -8,35 +9,63 @@ type Int32 struct{ v int32 }
 type Int64 struct{ v int64 }
 type Bool struct{ v bool }
 
-func (a *Int32) Load() int32       { vsched.Yield(); return a.v }
-func (a *Int32) Store(v int32)     { vsched.Yield(); a.v = v }
-func (a *Int32) Add(d int32) int32 { vsched.Yield(); a.v += d; return a.v }
+func (a *Int32) Load() int32   { vsched.AtomicRead(a); return a.v }
+func (a *Int32) Store(v int32) { vsched.AtomicWrite(a, true); a.v = v }
+func (a *Int32) Add(d int32) int32 {
+	vsched.AtomicRead(a)
+	vsched.AtomicWrite(a, false)
+	a.v += d
+	return a.v
+}
 func (a *Int32) CompareAndSwap(o, n int32) bool {
-	vsched.Yield()
+	vsched.AtomicRead(a)
 	if a.v == o {
+		vsched.AtomicWrite(a, false)
 		a.v = n
 		return true
 	}
 	return false
 }
-func (a *Int64) Load() int64       { vsched.Yield(); return a.v }
-func (a *Int64) Store(v int64)     { vsched.Yield(); a.v = v }
-func (a *Int64) Add(d int64) int64 { vsched.Yield(); a.v += d; return a.v }
-func (a *Bool) Load() bool         { vsched.Yield(); return a.v }
-func (a *Bool) Store(v bool)       { vsched.Yield(); a.v = v }
+func (a *Int64) Load() int64   { vsched.AtomicRead(a); return a.v }
+func (a *Int64) Store(v int64) { vsched.AtomicWrite(a, true); a.v = v }
+func (a *Int64) Add(d int64) int64 {
+	vsched.AtomicRead(a)
+	vsched.AtomicWrite(a, false)
+	a.v += d
+	return a.v
+}
+func (a *Bool) Load() bool   { vsched.AtomicRead(a); return a.v }
+func (a *Bool) Store(v bool) { vsched.AtomicWrite(a, true); a.v = v }
 func (a *Bool) CompareAndSwap(o, n bool) bool {
-	vsched.Yield()
+	vsched.AtomicRead(a)
 	if a.v == o {
+		vsched.AtomicWrite(a, false)
 		a.v = n
 		return true
 	}
 	return false
 }
-func (a *Bool) Swap(n bool) bool { vsched.Yield(); o := a.v; a.v = n; return o }
+func (a *Bool) Swap(n bool) bool {
+	vsched.AtomicRead(a)
+	vsched.AtomicWrite(a, false)
+	o := a.v
+	a.v = n
+	return o
+}
 
-func AddInt32(p *int32, d int32) int32 { vsched.Yield(); *p += d; return *p }
-func AddInt64(p *int64, d int64) int64 { vsched.Yield(); *p += d; return *p }
-func LoadInt32(p *int32) int32         { vsched.Yield(); return *p }
-func LoadInt64(p *int64) int64         { vsched.Yield(); return *p }
-func StoreInt32(p *int32, v int32)     { vsched.Yield(); *p = v }
-func StoreInt64(p *int64, v int64)     { vsched.Yield(); *p = v }
+func AddInt32(p *int32, d int32) int32 {
+	vsched.AtomicRead(p)
+	vsched.AtomicWrite(p, false)
+	*p += d
+	return *p
+}
+func AddInt64(p *int64, d int64) int64 {
+	vsched.AtomicRead(p)
+	vsched.AtomicWrite(p, false)
+	*p += d
+	return *p
+}
+func LoadInt32(p *int32) int32     { vsched.AtomicRead(p); return *p }
+func LoadInt64(p *int64) int64     { vsched.AtomicRead(p); return *p }
+func StoreInt32(p *int32, v int32) { vsched.AtomicWrite(p, true); *p = v }
+func StoreInt64(p *int64, v int64) { vsched.AtomicWrite(p, true); *p = v }
